@@ -11,14 +11,19 @@ EXPLANATION = ('(D1) For all 2^32 day numbers at once the weekday returned by da
                'from each day to the next across day 0, and together with the epoch anchor 1970-01-01 = day 719_162 (C03) this makes '
                '1970-01-01 a Thursday; the Monday-first variant used by format is congruent to days. (D2) day_of_year is the month offset of '
                'year_month_to_doy(y, m) plus d for the (y, m, d) that days_to_date returned for the same day; the month offsets are the prefix sums '
-               'of the month lengths (C01-D4). (D3) weekday in [0,6], day of year in [1,366], ISO week in [1,53], no overflow or lossy cast except one '
-               'hand-discharged relational cast in days_to_wyear. (W) the ISO week formula of days_to_wyear for years >= 1, month case-split: its intermediate day of year is the calendar table offset + day - 1 '
-               '(+ the leap flag from March on), g - e is congruent to (y-1) + (y-1)/4 - (y-1)/100 + (y-1)/400 modulo 7 (the Monday-based weekday of 1 January), '
-               'd = (f + g - e) mod 7, n = f + 3 - d (the Thursday of the week), result n/7 + 1 for 0 <= n <= 364 + s and week 1 beyond (anchored on the named '
-               'intermediates a, b, c, s, e, f, g, d, n of that function). Not decided: the count of weeks of the previous year (n < 0 case), BC years, quarter rendering (C11).')
+               'of the month lengths (C01-D4). (D3) weekday in [0,6], day of year in [1,366], ISO week in [1,53], no overflow or lossy cast (the obligations inside '
+               'days_to_wyear are discharged in every class of (W)). (W) the ISO 8601 week number of days_to_wyear for every date: the years are analysed in the '
+               '400 + 400 residue classes of the 400-year cycle of both eras with a symbolic cycle index (plus the years 1, -1, -2 and the 22 years at the ends of '
+               'the range one by one) x 12 months with the day of the month symbolic; in each, the intermediates f, d, n of that function are the zero-based day '
+               'of the year, the Monday-based weekday ((day of year + weekday of 1 January) mod 7, constants from the calendar definition, not from the code) and '
+               'the day of the year of the Thursday of the week, and on every result path the returned number is the ISO week (n / 7 + 1, week 1 when the Thursday '
+               'lies in the next year, 52 or 53 -- the number of weeks of the previous year by the Thursday rule -- when it lies in the previous one) for every day '
+               'the path can hold; every day is covered by a path. Not decided here: that format prints these kernels for w, q, e, D (C11 decides it), the setter '
+               'set_day_of_year (C09).')
 META = {
-    'technique': 'static analysis: MIR abstract interpretation with affine-modulo forms (weekday congruence), value identity at kernel call sites, interval ranges',
-    'note': 'trusted: rustc MIR, vf/models.py, calendar kernels (C01); one hand-discharged cast in days_to_wyear (tables/hand_discharged.json)',
+    'technique': 'static analysis: MIR abstract interpretation with affine-modulo forms (weekday congruence), value identity at kernel call sites, interval ranges; '
+                 'residue-class case analysis of the ISO week function over the 400-year cycle (symbolic cycle index, symbolic day) against the ISO 8601 definition',
+    'note': 'trusted: rustc MIR, vf/models.py, calendar kernels (C01: days_to_date returns the calendar date of the day)',
 }
 
 WD = 'util::date::convert::days_to_wday'
@@ -27,8 +32,8 @@ YMD = 'util::date::convert::year_month_to_doy'
 
 
 def check(ctx):
-    from ..isoweek import check_iso_week
-    check_iso_week(ctx, Numeric)
+    from ..isoweek import check_iso_week_classes
+    check_iso_week_classes(ctx)
     N = Numeric(ctx)
     I = N.I
     # ---- D1: weekday congruence, both variants of the kernel
